@@ -387,6 +387,7 @@ func init() {
 		Post:            postC06,
 		Posts:           []func(seed uint64, tier string, cov *Cov) ([]*Violation, map[string]any, error){postC06Hist},
 		IsolationClause: "C06.process",
+		NondetClause:    "C06.scheduling",
 		MustReach:       []string{"calls-augmented-from-sources", "command-loop-history", "history:other-input-between", "pp-executions"},
 	})
 }
